@@ -42,7 +42,8 @@ def fn_props(ucfg, fn):
     base = fn[:-len("_vxcanary")] if fn.endswith("_vxcanary") else fn
     if base in tags:
         return tags[base]
-    return ucfg["properties"]
+    # `only_tagged`: a property that is served by this unit ONLY through the functions whose [tags] entry names it
+    return [p for p in ucfg["properties"] if p not in ucfg.get("only_tagged", [])]
 
 
 def err_props(err):
@@ -329,6 +330,16 @@ def decide(prop, tier, repo, seed, only_units=None, quiet=False):
                     # (known_findings.json, kind "bounded") is a KNOWN-FINDING, anything else a violation
                     fl = [l.strip() for l in out.split("\n") if l.strip().startswith("VX-BOUNDED-FAIL")]
                     other = [l.strip() for l in out.split("\n") if l.strip().startswith("VX-BOUNDED ") ]
+                    # a stand-in that serves several properties may say which probe kind (2nd word of the line) speaks for which
+                    # property: a failing probe of another property is not an alarm of this one
+                    pp = bd.get("probe_properties")
+                    if pp and fl:
+                        mine_fl = [l for l in fl if prop in pp.get((l.split() + ["", ""])[1], [prop])]
+                        if not mine_fl:
+                            bounded_runs[-1]["passed"] = True
+                            bounded_runs[-1]["note"] = "%d failing probe(s), all of kinds that speak for other properties: %s" % (len(fl), sorted(set((l.split() + ["", ""])[1] for l in fl)))
+                            continue
+                        fl = mine_fl
                     kb = [k for k in known.get("findings", []) if k.get("kind") == "bounded" and prop in (k.get("properties") or [k["property"]]) and k.get("filter") == bd["filter"]]
                     unmatched, hit = [], set()
                     for l in fl:
